@@ -14,6 +14,8 @@ theorem presence_independent_of_pool (s0 s1 : BitSet) (req seen : List Nat) (r :
 /-- the code journals and rolls back a failed build as `BuildCache.useType` does (regenerated
     structural fact about desc.go) -/
 theorem failed_build_rolled_back : Generated.facts.rollbackOnFailedBuild = true := Instances.facts_rollback
+/-- the five functions of the descriptor build consist of the statements the state machine models -/
+theorem code_is_the_state_machine : Generated.facts.buildProtocol = true := Instances.facts_buildProtocol
 theorem scratch_cleared : Generated.facts.scratchPooledAndCleared = true := by decide
 
 /-- descriptor caches (BuildCache.lean: `sds`, `prefetchStructDescCache`, the `Sd` links of the
